@@ -81,6 +81,50 @@ def s_fiber(g, depth):
     L.append("for f in log%d { print(f()); }" % tag)
     if "exc.yield_in_finally" not in g.p.avoid and r.chance(40):
         L += yield_in_finally(g)
+    if r.chance(45):
+        L += abandoned_accessors(g)
+    return L
+
+
+def abandoned_accessors(g):
+    """a fiber hands out accessors to its locals (created in a random order, so captures happen in ascending, descending
+    and mixed slot order; some used only locally) and is then abandoned while suspended - or kept and resumed later;
+    other fibers come and go in between; the locals must stay what the fiber left them"""
+    r = g.r
+    tag = g.fresh("ab")
+    m = r.range(2, 4)
+    order = r.shuffle(list(range(m)))
+    escape = [r.chance(60) for _ in range(m)]
+    if not any(escape):
+        escape[order[-1]] = True
+    keep = r.chance(35)
+    nested = r.chance(30)
+    body = ["var v%d = %s;" % (i, r.choice(["%d" % (100 * (i + 1)), "[%d]" % i, "\"s%d\"" % i])) for i in range(m)]
+    acc = []
+    for i in order:
+        if escape[i]:
+            acc.append("%s_acc.push(|| v%d);" % (tag, i))
+            if r.chance(50):
+                acc.append("%s_acc.push(|| { v%d = [v%d]; return v%d; });" % (tag, i, i, i))
+        else:
+            acc.append("var peek%d = || v%d;" % (i, i))
+    if nested:
+        body += ["fn inner() {", "    var w = \"inner\";", "    var pw = || w;"] + ["    " + a for a in acc] + [
+            "    Fiber.yield(pw());", "    return w;", "}", "inner();"]
+    else:
+        body += acc + ["Fiber.yield(v0);"]
+    body.append("print(\"%s resumed\");" % tag)
+    body.append("return [%s];" % ", ".join("v%d" % i for i in range(m)))
+    L = ["var %s_acc = [];" % tag, "var %s_kept = nil;" % tag, "fn %s_start() {" % tag, "    var worker = Fiber.new(|| {"]
+    L += ["        " + b for b in body]
+    L += ["    });", "    print(worker.call());"]
+    if keep:
+        L.append("    %s_kept = worker;" % tag)
+    L += ["}", "%s_start();" % tag, "for f in %s_acc { print(f()); }" % tag,
+          "fn %s_churn(t) { var f = Fiber.new(|x| { var a = [x, 1]; var b = [x, 2]; var c = [x, 3]; Fiber.yield([a, b, c]); }); return f.call(t); }" % tag,
+          "for i in 0..%d { %s_churn(i); }" % (r.range(3, 12), tag), "for f in %s_acc { print(f()); }" % tag]
+    if keep:
+        L += ["print(%s_kept.call());" % tag, "for f in %s_acc { print(f()); }" % tag]
     return L
 
 
